@@ -48,7 +48,7 @@ type c11Stats struct {
 }
 
 const c11Rule = "rapid-generated histories on the multihash primary (small files, one fixed low-use threshold 1..100 per case, every GC cycle preceded by a flush as the statement requires) followed by a generated kill phase that removes or overwrites every key living in a non-current primary file and rewrites every bucket that refers into a non-current index file (in a third of the cases the oldest such primary and/or index file is spared, so that the files behind it cannot be unlinked and have to be truncated), flush, then [primary cycle, index cycle, flush] repeated (the index cycles with the scan for unreferenced files every other time, never, or always - drawn per case); " +
-	"oracle = validity predicates: the directory becomes byte-identical across two consecutive rounds within 10+3*(records+files) rounds; at that fixed point every targeted primary file and every unreferenced targeted index file has length 0 or is gone, a dead non-empty file that is the oldest one when the first cycle visits it is unlinked and the first-file number advances past it, no non-current primary file with live records is low-use by the case's threshold; StorageSize right after a cycle <= StorageSize right before it + 2, and growth at the following flush <= outstanding work reported before that flush + 2; contents still equal the reference map; in a quarter of the cases the closure is left to the store's own periodic collectors instead (0.2 ms interval, cycle time limit none / 50 us / 500 us; verdict after >= 60 cycles of each collector, counted at their named points); after a close/reopen and three more cycles an empty non-current file is never the header's first file; " +
+	"oracle = validity predicates: the directory becomes byte-identical across two consecutive rounds within 10+3*(records+files) rounds; at that fixed point every targeted primary file and every unreferenced targeted index file has length 0 or is gone, a dead non-empty file that is the oldest one when the first cycle visits it is unlinked and the first-file number advances past it, no non-current primary file with live records is low-use by the case's threshold; StorageSize right after a cycle <= StorageSize right before it + 2, and growth at the following flush <= outstanding work reported before that flush + 2; contents still equal the reference map; in a quarter of the cases the closure is left to the store's own periodic collectors instead (0.2 ms interval, cycle time limit none / 50 us / 500 us; verdict after >= 60 cycles of each collector, counted at their named points); an empty non-current file that is the header's first file when the store is reopened is unlinked by the next three cycles; " +
 	"non-trivial = the kill phase emptied >=2 primary files one of which was not the oldest; distinct = distinct canonical JSON of the case"
 
 func genC11(t *rapid.T) C11Case {
@@ -483,10 +483,11 @@ func c11Closure(r *seqRunner, step int, c C11Case, pc *pointCounter, csp *c11Sta
 			// the merged-in records count as free bytes too, so a later
 			// reading of the same file can be a few percent "more free" than
 			// what the collector saw when it decided. Only a file that is
-			// low-use even when a fifth of its free bytes is discounted is
-			// reported.
-			freeMin := free * 4 / 5
-			if busy > 0 && 100*freeMin >= int64(c.LowUse)*(freeMin+busy) {
+			// low-use even when a quarter of its free bytes and two more
+			// prefixes are discounted is reported (the earlier margin of a fifth
+			// still produced boundary alarms in thorough runs).
+			freeMin := free*3/4 - 8
+			if busy > 0 && freeMin > 0 && 100*freeMin > int64(c.LowUse)*(freeMin+busy) {
 				return viol("low-use-file-not-drained|fixedpoint|", step, "primary file %d has %d live and %d free bytes (threshold %d%%) at the GC fixed point and was not drained", n, busy, free, c.LowUse)
 			}
 		}
@@ -506,10 +507,31 @@ func c11Closure(r *seqRunner, step int, c C11Case, pc *pointCounter, csp *c11Sta
 			return viol("open-error|c11-restart|"+errClass(err), step, "reopen after the fixed point: %v", err)
 		}
 		r.s = s2
+		// The file that is the oldest when the fresh process starts: it is the
+		// first one the first cycle visits, so "unlinked when it is the oldest
+		// file at the time it is visited" applies to it without any doubt. (An
+		// empty file that only becomes the oldest later, after it was visited,
+		// is not looked at again by the same process - that is how the
+		// collector works and not against the statement.)
+		firstAtRestart, emptyFirstAtRestart := uint32(0), false
+		if ph, err := readJSONHeader(filepath.Join(r.dir, dataBase+".info")); err == nil {
+			firstAtRestart = uint32(hdrInt(ph, "FirstFile"))
+			sizes := fileSizes(r.dir, dataBase)
+			cur0, _ := maxKey(sizes)
+			if sz, exists := sizes[firstAtRestart]; exists && sz == 0 && firstAtRestart < cur0 {
+				emptyFirstAtRestart = true
+			}
+		}
+		var gcReturns []string
 		if mp2 := mhPrimaryOf(s2); mp2 != nil {
 			for n := 0; n < 3; n++ {
-				if _, err := mp2.GC(gcCtx(0), int64(c.LowUse)); err != nil {
+				rec, err := mp2.GC(gcCtx(0), int64(c.LowUse))
+				gcReturns = append(gcReturns, fmt.Sprintf("(%d, %v)", rec, err))
+				if err != nil {
 					r.stats.GCErrors = append(r.stats.GCErrors, "pgc: "+errClass(err))
+					if os.Getenv("VERIF_DEBUG") != "" {
+						fmt.Println("restart-phase GC error:", err)
+					}
 				}
 				if err := s2.Flush(); err != nil {
 					return viol("flush-error|c11-restart|"+errClass(err), step, "Flush: %v", err)
@@ -518,10 +540,10 @@ func c11Closure(r *seqRunner, step int, c C11Case, pc *pointCounter, csp *c11Sta
 		}
 		prim = fileSizes(r.dir, dataBase)
 		curPrim, _ = maxKey(prim)
-		if ph, err := readJSONHeader(filepath.Join(r.dir, dataBase+".info")); err == nil {
-			first := uint32(hdrInt(ph, "FirstFile"))
+		if emptyFirstAtRestart {
+			first := firstAtRestart
 			if sz, exists := prim[first]; exists && sz == 0 && first < curPrim {
-				return viol("oldest-dead-file-not-unlinked|after-restart|empty-first-file-kept", step, "primary file %d is empty, is the header's first file and is not the current file (%d); three GC cycles of a freshly opened store visited it and did not unlink it", first, curPrim)
+				return viol("oldest-dead-file-not-unlinked|after-restart|empty-first-file-kept", step, "primary file %d was empty, the header's first file and not the current file (%d) when the store was reopened; three GC cycles of that fresh process visited it first and did not unlink it (the cycles returned %v; primary files now: %v)", first, curPrim, gcReturns, prim)
 			}
 		}
 		return nil
